@@ -35,3 +35,22 @@ package fingerprint
 //@   assigns nothing
 //@   ensures [C03:h2-only] data.ConnectionState.NegotiatedProtocol == "h2" ==> err == nil && fp == h2fp(data.HTTP2Frames, p.MaxPriorityFrames)
 //@   ensures [C03:no-fingerprint-without-h2] data.ConnectionState.NegotiatedProtocol != "h2" ==> err == nil && fp == ""
+
+//@ -- tlsx / utls parse the captured record (assumed): the parsed fields are functions of the record bytes only
+//@ pure func chVersion(rec seq[byte]) uint16
+//@ pure func chCiphers(rec seq[byte]) seq[uint16]
+//@ pure func chExts(rec seq[byte]) seq[uint16]
+//@ pure func chGroups(rec seq[byte]) seq[uint16]
+//@ pure func chPoints(rec seq[byte]) seq[uint8]
+//@ func tlsx.(*ClientHelloBasic).Unmarshal :: ch, payload -> err
+//@   trusted
+//@   requires ch != nil
+//@   assigns ch.all
+//@   ensures err == nil ==> ch.HandshakeVersion == chVersion(payload) && ch.CipherSuites == chCiphers(payload) && ch.AllExtensions == chExts(payload) && ch.SupportedGroups == chGroups(payload) && ch.SupportedPoints == chPoints(payload)
+
+//@ func JA3Fingerprint :: data -> fp, err
+//@   props C01
+//@   requires data != nil
+//@   assigns nothing
+//@   ensures [C01:pure-function-of-record] err == nil ==> fp == hexstr(md5sum(ja3fields(chVersion(data.ClientHelloRecord), chCiphers(data.ClientHelloRecord), chExts(data.ClientHelloRecord), chGroups(data.ClientHelloRecord), chPoints(data.ClientHelloRecord))))
+//@   ensures [C01:no-value-on-parse-error] err != nil ==> fp == ""
